@@ -424,9 +424,7 @@ func (g *gen) production(t *Ty, d int) *Expr {
 			g.note("list-concat-set")
 			return eBin("BITOR", g.expr(t, d), g.expr(tSet(t.E), d))
 		case 3:
-			if k := t.E.K; k == "list" || k == "str" || k == "rec" {
-				return g.where(t, d)
-			}
+			return g.where(t, d)
 		case 4:
 			return g.flattenColl(t, d)
 		case 5:
@@ -450,9 +448,7 @@ func (g *gen) production(t *Ty, d int) *Expr {
 				return eBin("BITOR", g.expr(t, d), g.expr(t, d))
 			}
 		case 2:
-			if k := t.E.K; k == "int" || k == "str" || k == "rec" {
-				return g.where(t, d)
-			}
+			return g.where(t, d)
 		case 3:
 			return g.flattenColl(t, d)
 		case 4:
